@@ -17,3 +17,10 @@ VARIANTS = [
       rule=None, key=''),
     M('C05', 'refactor-same-len-inline', E(CP, "        same_len = na == nr\n        if not same_len:", "        if na != nr:"), kind='refactor'),
 ]
+
+VARIANTS += [
+    M('C05', 'cached-parquet-reads', [E(CP, "import os\n", "import os\nimport functools\n"), E(CP, "def default_csv_loader(", "@functools.lru_cache(maxsize=32)\ndef read_parquet_cached(path):\n    return pd.read_parquet(path)\n\n\ndef default_csv_loader(")],
+      rule='C05-NOCACHE', key='checkpandas'),
+    M('C05', 'multi-file-entry-drops-sortby', E(CP, "                    check_order=check_order,\n                    sortby=sortby,\n                    condition=condition,\n                    msgs=msgs,\n                    **kwargs,", "                    check_order=check_order,\n                    condition=condition,\n                    msgs=msgs,\n                    **kwargs,"),
+      rule='C05-FORWARD', key='check_serialized_dataframes'),
+]
